@@ -118,6 +118,12 @@ impl AsyncClient {
         Ok(Self { inner })
     }
 
+    /// Number of calls currently registered as awaiting a response.
+    #[cfg(feature = "verif-hooks")]
+    pub fn verif_pending_len(&self) -> usize {
+        lock_pending_map(&self.inner.pending).len()
+    }
+
     fn next_request_id(&self) -> u64 {
         self.inner.next_id.fetch_add(1, Ordering::Relaxed)
     }
@@ -635,6 +641,8 @@ impl AsyncClient {
 
         let (sender, receiver) = oneshot::channel();
         let mut pending_guard = PendingRequestGuard::register(&self.inner, id, sender)?;
+        #[cfg(feature = "verif-hooks")]
+        crate::verif_hooks::probe("async_client.registered", id);
 
         self.write_request(&msg).await?;
 
@@ -642,6 +650,14 @@ impl AsyncClient {
             Some(duration) => match timeout(duration, receiver).await {
                 Ok(Ok(value)) => value,
                 Ok(Err(_)) => return Err(response_channel_closed_error(id)),
+                #[cfg(feature = "verif-hooks")]
+                Err(_) if {
+                    crate::verif_hooks::probe("async_client.timeout.before_remove", id);
+                    false
+                } =>
+                {
+                    unreachable!()
+                }
                 Err(_) => return Err(request_timeout_error(id, duration)),
             },
             None => match receiver.await {
@@ -657,8 +673,12 @@ impl AsyncClient {
 
     async fn write_request(&self, msg: &Message) -> Result<(), RepeError> {
         let mut writer = self.inner.writer.lock().await;
+        #[cfg(feature = "verif-hooks")]
+        crate::verif_hooks::probe("async_client.write.locked", msg.header.id);
         write_message_async(&mut *writer, msg).await?;
         writer.flush().await?;
+        #[cfg(feature = "verif-hooks")]
+        crate::verif_hooks::probe("async_client.written", msg.header.id);
         Ok(())
     }
 
@@ -835,6 +855,8 @@ fn spawn_response_loop(
                 }
             };
 
+            #[cfg(feature = "verif-hooks")]
+            crate::verif_hooks::probe("async_client.reader.received", response.header.id);
             let dispatch = {
                 let Some(inner_ref) = inner.upgrade() else {
                     break;
@@ -856,6 +878,8 @@ fn spawn_response_loop(
 
             match dispatch {
                 PendingDispatch::Matched { sender, response } => {
+                    #[cfg(feature = "verif-hooks")]
+                    crate::verif_hooks::probe("async_client.reader.before_deliver", response.header.id);
                     let _ = sender.send(Ok(response));
                 }
                 PendingDispatch::Unrecognized { got_id } => {
